@@ -46,13 +46,13 @@ Qed.
 
 Section Codec.
 Variable V : Type.
-Variable venc : V -> bits.
-Variable vdec : bits -> option (V * bits).
-Hypothesis vcodec : forall v rest, vdec (venc v ++ rest) = Some (v, rest).
+Variable venc : V -> bits * list cell.
+Variable vdec : bits -> list cell -> option V.
+Hypothesis vcodec : forall v, vdec (fst (venc v)) (snd (venc v)) = Some v.
 
 (** ** the encoder succeeds when label + value fit into a cell *)
 Lemma cells_of_go_ok n vmax (t : pt V) : forall m,
-  (forall v, length (venc v) <= vmax)%nat ->
+  (forall v, length (fst (venc v)) <= vmax /\ length (snd (venc v)) <= 4)%nat ->
   (Nat.max 16 (2 + lim_width n + n) + vmax <= 1023)%nat ->
   (m <= n)%nat -> wf_pt m t ->
   exists c, cells_of venc m (annot_go V t) = Ok c.
@@ -60,10 +60,13 @@ Proof.
   intros m Hv Hfit. revert m.
   induction t as [lbl v|lbl l IHl r IHr]; intros m Hm Hwf; cbn [annot_go cells_of wf_pt] in *.
   - rewrite <- enc_label_go_eq. unfold mk_cell.
-    pose proof (enc_label_go_length m lbl). pose proof (lim_width_mono m n Hm). pose proof (Hv v).
-    replace (1023 <? length (enc_label_go m lbl ++ venc v))%nat with false
+    pose proof (enc_label_go_length m lbl). pose proof (lim_width_mono m n Hm).
+    destruct (Hv v) as [Hvb Hvr].
+    replace (1023 <? length (enc_label_go m lbl ++ fst (venc v)))%nat with false
       by (symmetry; apply Nat.ltb_ge; rewrite app_length; lia).
-    cbn. eauto.
+    replace (4 <? length (snd (venc v)))%nat with false
+      by (symmetry; apply Nat.ltb_ge; lia).
+    eauto.
   - destruct Hwf as (Hlen & Hwl & Hwr).
     destruct (IHl (m - length lbl - 1)%nat ltac:(lia) Hwl) as (lc & ->).
     destruct (IHr (m - length lbl - 1)%nat ltac:(lia) Hwr) as (rc & ->).
@@ -75,7 +78,7 @@ Proof.
 Qed.
 
 Theorem encode_ok n vmax (kvs : list (bits * V)) :
-  (forall v, length (venc v) <= vmax)%nat ->
+  (forall v, length (fst (venc v)) <= vmax /\ length (snd (venc v)) <= 4)%nat ->
   (Nat.max 16 (2 + lim_width n + n) + vmax <= 1023)%nat ->
   sorted kvs -> keys_len n kvs ->
   exists c, encode_e venc n kvs = Ok c.
@@ -159,45 +162,50 @@ Proof.
   intros Hs Hl Hne Hc.
   destruct (signed_split n m Hs Hl) as (L & R & Em & HsL & HsR & HlL & HlR).
   exists L, R. split; [exact Em|].
-  destruct R as [|r0 R0] eqn:ER; [|destruct L as [|l0 L0] eqn:EL].
-  - cbn [addp map app] in *. rewrite app_nil_r. rewrite <- Em.
+  assert (HR : R = [] \/ R <> []) by (destruct R; [left; reflexivity|right; discriminate]).
+  assert (HL : L = [] \/ L <> []) by (destruct L; [left; reflexivity|right; discriminate]).
+  destruct HR as [ER|HneR]; [|destruct HL as [EL|HneL]].
+  - subst R. change (addp [true] (@nil (bits * V))) with (@nil (bits * V)) in *.
+    cbn [app] in Em. rewrite app_nil_r, <- Em.
     apply (encode_decode_dict V venc vdec vcodec (S n) m c); auto.
     rewrite Em. apply addp_sorted. exact HsL.
-  - cbn [addp map app] in *. rewrite app_nil_r in Em. rewrite <- Em.
+  - subst L. change (addp [false] (@nil (bits * V))) with (@nil (bits * V)) in *.
+    rewrite app_nil_r in Em. cbn [app]. rewrite <- Em.
     apply (encode_decode_dict V venc vdec vcodec (S n) m c); auto.
-    rewrite Em. apply (addp_sorted V [true] (r0 :: R0)). exact HsR.
-  - rewrite <- ER, <- EL in *.
-    assert (HneL : L <> []) by (subst L; discriminate).
-    assert (HneR : R <> []) by (subst R; discriminate).
-    destruct (sorted_tree_exists V n L HsL HlL HneL) as (tL & HwL & EtL).
+    rewrite Em. apply addp_sorted. exact HsR.
+  - destruct (sorted_tree_exists V n L HsL HlL HneL) as (tL & HwL & EtL).
     destruct (sorted_tree_exists V n R HsR HlR HneR) as (tR & HwR & EtR).
     assert (Henc : encode venc (S n) m = cells_of venc (S n) (annot_go V (Fork [] tL tR))).
-    { unfold encode. destruct m as [|kv0 m'] eqn:Emm; [congruence|]. rewrite <- Emm in *.
-      clear Hc. rewrite Em. rewrite ER at 1. cbn [addp map app fst snd].
-      destruct r0 as [kr vr]. cbn [fst snd].
+    { clear Hc. unfold encode. rewrite Em.
+      assert (HneAL : addp [false] L <> []).
+      { intros H. apply (f_equal (@length _)) in H. rewrite addp_length in H.
+        destruct L; [congruence|discriminate]. }
+      destruct R as [|[kr vr] R0] eqn:ER; [congruence|].
+      change (addp [true] ((kr, vr) :: R0)) with ((true :: kr, vr) :: addp [true] R0).
+      rewrite <- app_comm_cons. lazy iota beta.
       rewrite encode_map_multi.
-      2:{ intros H. apply app_eq_nil in H. destruct H as [_ H].
-          rewrite EL in H. discriminate. }
-      rewrite app_comm_cons, last_app_ne by (rewrite EL; discriminate).
+      2:{ intros H. apply app_eq_nil in H. destruct H as [_ H]. contradiction. }
+      rewrite app_comm_cons, last_app_ne by exact HneAL.
       rewrite (last_addp_key V [false] L _ (kr, vr)) by exact HneL.
       cbn [app]. rewrite lcp_go_diff by discriminate. cbn [bind length].
-      change (([true] ++ kr, vr) :: map (fun kv => ([true] ++ fst kv, snd kv)) R0)
-        with (addp [true] ((kr, vr) :: R0)).
-      change ((true :: kr, vr) :: map (fun kv => ([true] ++ fst kv, snd kv)) R0)
-        with (addp [true] ((kr, vr) :: R0)).
+      change ((true :: kr, vr) :: addp [true] R0 ++ addp [false] L)
+        with (addp [true] ((kr, vr) :: R0) ++ addp [false] L).
       rewrite <- ER.
       rewrite (split_keys_app 0 _ _ [] R L []).
       2:{ apply (split_keys_right V [] R). }
-      2:{ pose proof (split_keys_fork V [] L []) as H. cbn [addp map] in H.
+      2:{ pose proof (split_keys_fork V [] L []) as H.
+          change (addp ([] ++ [true]) (@nil (bits * V))) with (@nil (bits * V)) in H.
           rewrite app_nil_r in H. exact H. }
       cbn [app bind fst snd]. rewrite app_nil_r.
       replace (S n - 0 - 1)%nat with n by lia.
-      rewrite <- EtL at 1. rewrite encode_map_tree.
-      2:{ rewrite EtL, Em, app_length, !addp_length.
-          assert (0 < length R)%nat by (rewrite ER; cbn; lia). lia. }
-      rewrite <- EtR at 1. rewrite encode_map_tree.
-      2:{ rewrite EtR, Em, app_length, !addp_length.
-          assert (0 < length L)%nat by (rewrite EL; cbn; lia). lia. }
+      match goal with |- context [encode_map venc ?f n L] => set (fu := f) end.
+      assert (Hfu : (length L < fu /\ length R < fu)%nat).
+      { unfold fu. rewrite app_length, !addp_length, ER. cbn [length].
+        assert (0 < length L)%nat by (destruct L; [congruence|cbn; lia]). lia. }
+      destruct Hfu as [HfL HfR]. clearbody fu.
+      rewrite <- ER in EtR.
+      rewrite <- EtL in HfL |- *. rewrite <- EtR in HfR |- *.
+      rewrite !encode_map_tree by assumption.
       cbn [annot_go cells_of length]. replace (S n - 0 - 1)%nat with n by lia.
       rewrite enc_label_go_eq. reflexivity. }
     rewrite Henc in Hc.
@@ -209,6 +217,39 @@ Proof.
     + apply annot_go_valid.
 Qed.
 
+Theorem encode_decode_signed_e n (m : list (bits * V)) c :
+  ksorted bits V signed_ltb m -> keys_len (S n) m ->
+  encode_e venc (S n) m = Ok c ->
+  exists L R, m = addp [true] R ++ addp [false] L /\ sorted L /\ sorted R /\
+              decode_e vdec (S n) c = Ok (addp [false] L ++ addp [true] R).
+Proof.
+  intros Hs Hl Hc. unfold encode_e in Hc. destruct m as [|kv0 m'] eqn:Em.
+  - apply mk_cell_ok in Hc. subst c. exists [], []. repeat split; constructor.
+  - rewrite <- Em in *.
+    apply bind_ok in Hc. destruct Hc as (c' & Hc' & Hc).
+    apply mk_cell_ok in Hc. subst c. cbn [decode_e].
+    destruct (signed_split n m Hs Hl) as (L0 & R0 & Em0 & HsL & HsR & HlL & HlR).
+    destruct (encode_decode_signed n m c' Hs Hl ltac:(subst m; discriminate) Hc')
+      as (L & R & Em' & Hd).
+    (* the split is unique *)
+    assert (E : L = L0 /\ R = R0).
+    { clear - Em0 Em'. rewrite Em0 in Em'. clear Em0. revert R Em'.
+      induction R0 as [|[k v] R0 IH]; intros R Em'.
+      - destruct R as [|[k v] R].
+        + cbn [addp map app] in Em'. split; [|reflexivity].
+          revert L Em'. induction L0 as [|[k v] L0 IHL]; intros [|[k2 v2] L] E;
+            cbn [map] in E; try discriminate; [reflexivity|].
+          inversion E; subst. f_equal. apply IHL. assumption.
+        + exfalso. cbn [addp map app fst snd] in Em'.
+          destruct L0 as [|[k0 v0] L0]; cbn [map] in Em'; discriminate.
+      - destruct R as [|[k2 v2] R].
+        + exfalso. cbn [addp map app fst snd] in Em'.
+          destruct L as [|[k0 v0] L]; cbn [map] in Em'; discriminate.
+        + cbn [addp map app fst snd] in Em'. inversion Em' as [[Ek Ev Et]].
+          destruct (IH R Et) as [-> ->]. auto. }
+    destruct E as [-> ->]. exists L0, R0. auto.
+Qed.
+
 (** ** from a sequence of Puts to the decoded dictionary (bit-ordered key types) *)
 Theorem puts_encode_decode n (l : list (bits * V)) c :
   NoDup (map fst l) -> keys_len n l ->
@@ -217,14 +258,31 @@ Theorem puts_encode_decode n (l : list (bits * V)) c :
   decode_e vdec n c = Ok m /\ sorted m /\ (forall k v, In (k, v) m <-> In (k, v) l).
 Proof.
   intros Hnd Hl m Hc.
-  pose proof (put_sorted bits V bits_eqb bits_ltb bits_eqb_eq bits_ltb_irrefl
-                bits_ltb_trans bits_ltb_total l) as [Hs _].
+  pose proof (put_sorted bits V bits_eqb bits_ltb bits_key_order l) as [Hs _].
   apply ksorted_bits_sorted in Hs.
   assert (Hin : forall k v, In (k, v) m <-> In (k, v) l).
-  { intros k v. apply (get_puts_in bits V bits_eqb bits_ltb bits_eqb_eq bits_ltb_irrefl
-                         bits_ltb_trans bits_ltb_total); exact Hnd. }
+  { intros k v. apply (get_puts_in bits V bits_eqb bits_ltb bits_key_order); exact Hnd. }
   repeat split; try apply Hin; auto.
   apply (encode_decode_dict_e V venc vdec vcodec n m c); auto.
+  unfold keys_len in *. rewrite Forall_forall in *. intros [k v] H.
+  apply Hl. apply Hin. exact H.
+Qed.
+
+(** the same for IntN keys: decoding lists the non-negative keys first *)
+Theorem puts_encode_decode_signed n (l : list (bits * V)) c :
+  NoDup (map fst l) -> keys_len (S n) l ->
+  let m := puts bits_eqb signed_ltb l [] in
+  encode_e venc (S n) m = Ok c ->
+  (forall k v, In (k, v) m <-> In (k, v) l) /\
+  exists L R, m = addp [true] R ++ addp [false] L /\ sorted L /\ sorted R /\
+              decode_e vdec (S n) c = Ok (addp [false] L ++ addp [true] R).
+Proof.
+  intros Hnd Hl m Hc.
+  pose proof (put_sorted bits V bits_eqb signed_ltb signed_key_order l) as [Hs _].
+  assert (Hin : forall k v, In (k, v) m <-> In (k, v) l).
+  { intros k v. apply (get_puts_in bits V bits_eqb signed_ltb signed_key_order); exact Hnd. }
+  split; [exact Hin|].
+  apply encode_decode_signed_e; auto.
   unfold keys_len in *. rewrite Forall_forall in *. intros [k v] H.
   apply Hl. apply Hin. exact H.
 Qed.
@@ -257,4 +315,36 @@ Proof.
   - repeat constructor.
   - repeat constructor.
   - vm_compute. eexists. eexists. repeat split; reflexivity.
+Qed.
+
+(** the serialised dictionary does not depend on the insertion order *)
+Theorem encode_order_independent {V} (venc : V -> bits * list cell) keq klt n (l1 l2 : list (bits * V)) :
+  key_order keq klt -> NoDup (map fst l1) -> Permutation l1 l2 ->
+  encode_e venc n (puts keq klt l1 []) = encode_e venc n (puts keq klt l2 []).
+Proof.
+  intros KO Hnd Hp. rewrite (put_order_independent bits V keq klt KO l1 l2 Hnd Hp). reflexivity.
+Qed.
+
+Lemma vcodec_bit : forall v, vdec_bit (fst (venc_bit v)) (snd (venc_bit v)) = Some v.
+Proof. reflexivity. Qed.
+
+Lemma vcodec_any : forall v, vdec_any (fst (venc_any v)) (snd (venc_any v)) = Some v.
+Proof. intros [b rs]. reflexivity. Qed.
+
+(** Get / Put on a decoded dictionary of a bit-ordered key type agree with
+    lookup / update of the abstract map *)
+Theorem get_put_agree {V} (m : list (bits * V)) k v :
+  sorted m ->
+  put bits_eqb bits_ltb k v m = update k v m /\
+  sorted (put bits_eqb bits_ltb k v m) /\
+  (forall k', get bits_eqb k' m = lookup k' m) /\
+  (forall k', lookup k' (update k v m) = if bits_eqb k k' then Some v else lookup k' m).
+Proof.
+  intros Hs. split; [|split; [|split]].
+  - apply (put_update V). exact Hs.
+  - apply ksorted_bits_sorted. apply (put_ksorted bits V bits_eqb bits_ltb bits_key_order).
+    apply ksorted_bits_sorted. exact Hs.
+  - intros k'. exact (get_lookup V k' m).
+  - intros k'. rewrite <- (put_update V) by exact Hs. rewrite <- !(get_lookup V).
+    apply (get_put bits V bits_eqb bits_ltb bits_key_order).
 Qed.
